@@ -51,6 +51,10 @@ pub use crate::connection::{
 };
 #[cfg(feature = "qlog")]
 pub use connection::qlog::QlogStream;
+#[cfg(feature = "__verif")]
+pub use connection::{
+    Probe as VerifProbe, SpaceProbe as VerifSpaceProbe, StreamsProbe as VerifStreamsProbe,
+};
 
 #[cfg(feature = "rustls")]
 pub use rustls;
